@@ -13,8 +13,17 @@ E2 (bounded-exhaustive shape enumeration).  Parts:
   index  : reorder / reindex_* / from_seq / to_seq / get_transpose_idx_for_bidx / BijectiveIndex are mutually
            inverse bijections over their full small domains.
 
-`dot` of a rectangular 2- or 3-level matrix runs in a forked child process (the Cython kernels write with
-bounds checks off); death by signal is a problem of the case.
+Memory safety: MLMatrix.dot of a 2-/3-level matrix reaches ml_matvec_2d/3d, which write with bounds checks
+off.  Every structure with 2 or 3 levels and M != N is therefore evaluated completely inside a forked child
+process (check_case: one child per case; run: strided batches of cases per child, a child that dies is
+charged to the case it was working on and a new child continues).  In addition the two kernels are entered
+through a guard (module globals of pyiga.mlmatrix, restored afterwards) that compares the buffer lengths
+with the matrix shape first and raises instead of letting the kernel write past the result buffer, so that
+a child stays trustworthy after a failing case and the observation is deterministic.
+
+A derived structure (transpose, slice, join, reorder) is required to denote the right pattern and to be
+consistent with its own layout (S.bs / S.bidx); the order inside its level index lists is not documented
+and not demanded.  Data semantics are checked where pyiga defines them (MLMatrix, MLMatrix.reorder).
 """
 import gc
 import itertools
